@@ -746,7 +746,7 @@ pub fn check_c19(tier: Tier) -> i32 {
 // C16 construction grid + side-by-side histories
 
 fn c16_construct<A: Subject>(run: &Run, reserved: u32, cap: u32, unify: bool, backend: Backend) {
-  c16_construct_at::<A>(run, reserved, cap, unify, backend, 0)
+  c16_construct_at::<A>(run, reserved, cap, unify, backend, 0, false)
 }
 
 /// every descriptive accessor of an arena value (all but refs())
@@ -785,9 +785,10 @@ fn c16_clones_agree<A: Subject>(run: &Run, a: &A, what: &str, case: &serde_json:
 }
 
 /// `file_offset` > 0: a file arena whose window starts at that offset of the file
-fn c16_construct_at<A: Subject>(run: &Run, reserved: u32, cap: u32, unify: bool, backend: Backend, file_offset: u32) {
+fn c16_construct_at<A: Subject>(run: &Run, reserved: u32, cap: u32, unify: bool, backend: Backend, file_offset: u32, lock_meta: bool) {
   let mut cfg = Cfg::new(Fl::Optimistic, backend, unify, cap);
   cfg.reserved = reserved;
+  cfg.lock_meta = lock_meta;
   cfg.file_offset = file_offset;
   cfg.magic = 7;
   cfg.min_seg = 13;
@@ -805,8 +806,9 @@ fn c16_construct_at<A: Subject>(run: &Run, reserved: u32, cap: u32, unify: bool,
   }
   match r {
     Err(e) => {
-      if cap >= prefix && cap > 0 {
-        viol(run, "C16", "construction-refused", format!("[{} {:?} unify={}] reserved {} capacity {} (prefix {}) refused: {}", A::FLAVOUR, backend, unify, reserved, cap, prefix, e), case);
+      // (a refusal by the operating system — mlock over the limit, say — is not the arena's decision)
+      if cap >= prefix && cap > 0 && !(lock_meta && e.contains("os error")) {
+        viol(run, if lock_meta { "C16" } else { "C16" }, if lock_meta { "construction-refused:lock-meta" } else { "construction-refused" }, format!("[{} {:?} unify={}] reserved {} capacity {} (prefix {}) refused: {}", A::FLAVOUR, backend, unify, reserved, cap, prefix, e), case);
       }
     }
     Ok(a) => {
@@ -1035,8 +1037,19 @@ pub fn check_c16(tier: Tier) -> i32 {
     c.reserved = r;
     let prefix = c.data_offset() as u32;
     for cap in [prefix.saturating_sub(1), prefix, prefix + 1, prefix + 64] {
-      c16_construct_at::<sync::Arena>(&run, r, cap, true, Backend::File, 4096);
-      c16_construct_at::<unsync::Arena>(&run, r, cap, false, Backend::File, 8192);
+      c16_construct_at::<sync::Arena>(&run, r, cap, true, Backend::File, 4096, false);
+      c16_construct_at::<unsync::Arena>(&run, r, cap, false, Backend::File, 8192, false);
+    }
+  });
+  // `with_lock_meta(true)` is an option like any other: construction succeeds exactly when the capacity holds the prefix
+  let lock_items: Vec<(u32, bool, Backend)> = [0u32, 1, 5, 8, 13].iter().flat_map(|r| [(*r, false, Backend::Anon), (*r, true, Backend::Anon), (*r, true, Backend::File), (*r, false, Backend::Vec)]).collect();
+  par_for_each(&lock_items, |_, &(r, unify, backend)| {
+    let mut c = Cfg::new(Fl::Optimistic, backend, unify, 0);
+    c.reserved = r;
+    let prefix = c.data_offset() as u32;
+    for cap in [prefix.saturating_sub(1), prefix, prefix + 1, prefix + 8, prefix + 23, prefix + 24, prefix + 64] {
+      c16_construct_at::<sync::Arena>(&run, r, cap, unify, backend, 0, true);
+      c16_construct_at::<unsync::Arena>(&run, r, cap, unify, backend, 0, true);
     }
   });
   c16_truncate_keeps_prefix(&run);
